@@ -22,7 +22,7 @@ const c19 = "C19"
 
 func TestMain(m *testing.M) {
 	vev.Rule(c15, "generated EC block trees (null rounds, forks before/at/after the finalized base, head behind the base, chains far longer than 128), certificate histories stored in a real certstore.Store, manifests (head look-back 0..5, proposed length 1..150, committee look-back 2..6, initial instance, bootstrap epoch/finality) and clock positions around the head's timestamp; the model EC backend implements the public ec.Backend. "+
-		"Oracle: GetProposal equals the model's chain exactly (starts at the head of the previous certificate or the bootstrap tipset, follows parents of the head, trimmed by head look-back, freshness and length, the base alone when the head does not descend from it, each tipset with the CID of the model's table) and its supplemental data commits to the model committee of the next instance; GetCommittee equals the model's look-back rule (table and beacon) and is invariant under changes of EC head, forks and clock. Non-trivial = world with >=1 certificate and a head that is not a plain extension, or a trimmed/truncated proposal, or an instance beyond the bootstrap window; distinct by digest of the world")
+		"Oracle: GetProposal equals the model's chain exactly (starts at the head of the previous certificate or the bootstrap tipset, follows parents of the head, trimmed by head look-back, freshness and length, the base alone when the head does not descend from it, each tipset with the CID of the model's table) and its supplemental data commits to the model committee of the next instance; GetCommittee equals the model's look-back rule (table and beacon) and is invariant under changes of EC head, forks and clock - with at least one certificate stored also under a fork that branches off before the bootstrap tipset. Non-trivial = world with >=1 certificate and a head that is not a plain extension, or a trimmed/truncated proposal, or an instance beyond the bootstrap window; distinct by digest of the world")
 	vev.Rule(c19, c19rule)
 	vev.Main(m)
 }
@@ -90,7 +90,27 @@ func TestC15Inputs(t *testing.T) {
 			}
 		}
 		oldHead := w.ec.Head
-		w.placeHead(t, base)
+		deep := false
+		if bootIdx := w.mainIndex(w.boot); k >= 1 && bootIdx >= 1 && rapid.Bool().Draw(t, "deepreorg") {
+			// a node whose EC view forks off *before* the bootstrap tipset (a deep reorg, or a
+			// node that synced another fork): once a certificate is stored the committees come
+			// from certified tipsets, so they must still be the same. (Without a certificate
+			// the bootstrap committee is read from EC by epoch and is not asserted here.)
+			from := w.main[rapid.IntRange(0, bootIdx-1).Draw(t, "deepfrom")]
+			cur, e := from, from.E
+			for cur.E < w.boot.E+int64(rapid.IntRange(1, 6).Draw(t, "deeplen")) {
+				e += int64(1 + rapid.IntRange(0, 1).Draw(t, "deepgap"))
+				ts := mkTS(e, "deepfork", cur, from.Table, w.m.EC.Period, 8)
+				w.ec.Add(ts)
+				cur = ts
+			}
+			w.ec.Head = cur
+			w.clk.Set(cur.T.Add(w.m.EC.Period))
+			w.headMod = "deep-fork-before-bootstrap"
+			deep = true
+		} else {
+			w.placeHead(t, base)
+		}
 		in2 := w.inputs()
 		for i, b := range before {
 			com, err := in2.GetCommittee(ctx, i)
@@ -99,7 +119,7 @@ func TestC15Inputs(t *testing.T) {
 			}
 		}
 		nt := (k >= 1 && shape != "extends") || chain.Len() != 1 || inst >= w.m.InitialInstance+w.m.CommitteeLookback
-		vev.Case(c15, vev.Digest(fmt.Sprint(describeWorld(w)), inst, shape, chain.Len()), nt, "shape:"+shape, "head:"+w.headMod, fmt.Sprintf("certs:%d", min(k, 4)), fmt.Sprintf("proposal-len>1:%v", chain.Len() > 1), fmt.Sprintf("beyond-bootstrap-window:%v", inst+1 >= w.m.InitialInstance+w.m.CommitteeLookback))
+		vev.Case(c15, vev.Digest(fmt.Sprint(describeWorld(w)), inst, shape, chain.Len()), nt, "shape:"+shape, "head:"+w.headMod, fmt.Sprintf("metamorphic-deep-reorg:%v", deep), fmt.Sprintf("certs:%d", min(k, 4)), fmt.Sprintf("proposal-len>1:%v", chain.Len() > 1), fmt.Sprintf("beyond-bootstrap-window:%v", inst+1 >= w.m.InitialInstance+w.m.CommitteeLookback))
 		vev.Sample(c15, func() any {
 			d := describeWorld(w)
 			d["instance"] = inst
